@@ -1431,10 +1431,14 @@ def _norm_fit_tree(tree):
                 fn = norm.counter_to_enumerate(norm.ifexp_assign(fn))
             else:
                 fn = norm.lower_returns(fn)
+            if st.name == "__init__":
+                fn = norm.ifexp_assign(fn)
             fn = norm.swap_negated_ifs(fn)
             fn = norm.subst_aliases(fn, writes_of_callees(fn))
             fn = norm.resolve_constants(fn, consts)
             if st.name == "__init__":
+                # `if c: A else: B` + `if c: C else: D` on the same unwritten attribute path == one if/else
+                fn = norm.merge_same_test_ifs(fn, writes_of_callees(fn))
                 # a call of check_fit_ranges hoisted behind an if/else reads like the call duplicated in its branches
                 fn = norm.sink_into_branches(fn, _is_check_stmt)
             cls.body[i] = fn
